@@ -18,7 +18,7 @@ import numpy as np
 
 from ..core import Violation, short
 
-RUNS = {"quick": 1500, "thorough": 60000}
+RUNS = {"quick": 6000, "thorough": 90000}
 SELFCHECK = {"quick": 16, "thorough": 48}
 CHUNK = 50
 LEVEL = "exploration"
